@@ -2,21 +2,29 @@
 C14 — the verification cache is transparent.
 
 Theorems about `Macaroon/Bundle/Cache.lean`.  The positive theorems are about the value-level system
-`Cache.Sys` (= the repaired semantics `.copy`: the cache stores a copy of the verified caveats and
-hands out a fresh result around the requesting bundle's own token; histories over any number of
-bundles, eviction of any entry at any time, `now` given per step, any `ttl`).  The code as found
-(`.share`: the cache hands out the stored `*VerifiedMacaroon` itself, `Attenuate` writes through it)
-is kept as the negative witness `f7_sharing_not_transparent` on the object-level system `Cache.HSys`.
+`Cache.Sys` (= the semantics `.copy`: the cache stores a copy of the verified caveats and hands out a
+fresh result around the requesting bundle's own token; histories over any number of bundles,
+eviction of any entry at any time, `now` given per step, any `ttl`) with the key order `.byKid`: the
+candidate discharges are sorted STABLY by their key-id (the ticket they answer) before the key is
+built and before they are handed to the underlying verifier.
 
-Hypothesis on the underlying verifier (`StrFun`): its answer is a function of the permission token's
-text and the MULTISET of the candidate discharges' texts.  This is what the cache key can see; the
-key resolver satisfies it unless the header holds two DIFFERENT acceptable discharges for one ticket
-(then the first in the order presented wins, and the cache — which sorts the candidates in place
-before handing them on — may pick the other one: reported as a finding; `Cache.sortToks` models it).
+Hypothesis on the underlying verifier (`PerKidFun μ V`): its answer depends only on the permission
+token's text and, for each ticket, the ORDERED list of the texts of the candidates carrying it — on
+tokens whose macaroon is what their text decodes to under `μ`.  It is DISCHARGED for the key
+resolver (`resolver_satisfies_hypothesis`, any `μ`): `verify` looks candidates up by ticket, tries
+them in the order presented (the first acceptable one wins) and never mixes tickets.
+`MintSynced μ` is the codec fact that the text `Attenuate`/`Discharge` print for a new token decodes
+to the token they store (for `μ = macOf`: the round trip `decode_encode_mac` of C11,
+`mint_synced_is_codec_roundtrip`); parsed tokens satisfy it by construction.
+
+Negative witnesses of the two defects found and repaired:
+* `f7_sharing_not_transparent` — the cache handed out the stored `*VerifiedMacaroon` itself (`.share`);
+* `text_sorted_key_not_transparent` — the candidates were sorted by TEXT (`.byText`), which reorders
+  two candidates for one ticket in front of a verifier for which their order matters.
 
 Tie: family `cache` (every history is run through `bundle.NewVerificationCache` and directly; the
-driver runs the object-level model with the requested semantics and, for `.copy`, also `Cache.Sys`,
-reporting any difference).
+driver runs the object-level model and, for `.copy`, also `Cache.Sys`, reporting any difference; the
+`(const transparent)` lines are the implementation's own cached-against-direct verdict).
 -/
 import Macaroon.Lemmas.Bundle
 
@@ -25,61 +33,102 @@ open Macaroon Macaroon.Bundle Macaroon.Bundle.Cache Macaroon.Lemmas.BundleL
 
 /-- **cache_transparent.**  For every history over any number of bundles — `verify bᵢ` (through the
 cache or directly), `validate`, `attenuate`, `discharge`, `filter`, `header`, `tick`, eviction of
-any entry — at arbitrary times, every `ttl`, and every underlying verifier that is a function of
-(permission token text, discharge text multiset): replacing the cached verifier by the direct one
-changes nothing.  The trace compared holds, for every step, what the operation returned (accepted /
-failed and the verified caveats, the validate result, the printed header, the error flag) and the
-complete state of EVERY bundle afterwards. -/
-theorem cache_transparent (P : Params) (hV : StrFun P.V) (pl : Bytes) (hdrs : List Str) (hist : List (Int × Op)) :
+any entry — at arbitrary times, every `ttl`, and every underlying verifier whose answer depends on
+the candidates only through, per ticket, their ordered texts: replacing the cached verifier by the
+direct one changes nothing.  The trace compared holds, for every step, what the operation returned
+(accepted / failed and the verified caveats, the validate result, the printed header, the error
+flag) and the complete state of EVERY bundle afterwards. -/
+theorem cache_transparent (P : Params) (hO : P.order = .byKid) (hV : PerKidFun macOf P.V) (hm : MintSynced macOf)
+    (pl : Bytes) (hdrs : List Str) (hist : List (Int × Op)) :
     run P hist (init pl hdrs) = run P (hist.map fun x => (x.1, x.2.direct)) (init pl hdrs) :=
-  run_transparent P hV hist _ _ rfl (inv_init P.V pl hdrs)
+  run_transparent P hO hV hm hist _ _ rfl (inv_init P.V pl hdrs)
 
-/-- the same from any state that satisfies the invariant (token text without commas, every stored
-entry equal to the verifier's answer on its key), and with the direct run starting from ANY store -/
-theorem cache_transparent_from (P : Params) (hV : StrFun P.V) (hist : List (Int × Op)) (s s' : Sys)
-    (hb : s.bundles = s'.bundles) (hinv : Inv P.V s) :
+/-- for the key resolver the hypothesis on the verifier is discharged: what remains is the codec
+round trip for freshly minted tokens -/
+theorem cache_transparent_key_resolver (R : Bundle.Resolver) (ttl : Int) (sc : Bundle.DischargeScope) (hm : MintSynced macOf)
+    (pl : Bytes) (hdrs : List Str) (hist : List (Int × Op)) :
+    run { V := R.oracle, ttl := ttl, scope := sc } hist (init pl hdrs)
+      = run { V := R.oracle, ttl := ttl, scope := sc } (hist.map fun x => (x.1, x.2.direct)) (init pl hdrs) :=
+  run_transparent _ rfl (resolver_perKidFun R macOf) hm hist _ _ rfl (inv_init _ pl hdrs)
+
+/-- the same from any state that satisfies the invariant (token text without commas and decoding to
+the token's macaroon, every stored entry equal to the verifier's answer on its key), with the direct
+run starting from ANY store, for any decoder `μ` -/
+theorem cache_transparent_from {μ : Str → Option M} (P : Params) (hO : P.order = .byKid) (hV : PerKidFun μ P.V)
+    (hm : MintSynced μ) (hist : List (Int × Op)) (s s' : Sys) (hb : s.bundles = s'.bundles) (hinv : Inv μ P.V s) :
     run P hist s = run P (hist.map fun x => (x.1, x.2.direct)) s' :=
-  run_transparent P hV hist s s' hb hinv
+  run_transparent P hO hV hm hist s s' hb hinv
 
 /-- the invariant behind it is kept by every step: every live entry equals the direct verifier's
 answer on every query that maps to its key -/
-theorem invariant_step (P : Params) (hV : StrFun P.V) (now : Int) (s : Sys) (hinv : Inv P.V s) (op : Op) :
-    Inv P.V (step P now s op).1 :=
-  (step_cached_vs_direct P hV now s hinv op).2.2
+theorem invariant_step {μ : Str → Option M} (P : Params) (hO : P.order = .byKid) (hV : PerKidFun μ P.V) (hm : MintSynced μ)
+    (now : Int) (s : Sys) (hinv : Inv μ P.V s) (op : Op) : Inv μ P.V (step P now s op).1 :=
+  (step_cached_vs_direct P hO hV hm now s hinv op).2.2
 
 /-- one cached verification returns what the direct one returns -/
-theorem verify_cached_is_direct (V : Bundle.Oracle) (hV : StrFun V) (c : Store) (hc : Sound V c) (now ttl : Int)
-    (b : Bundle) (hb : Clean b) : (verifyCached V c now ttl b).1 = b.verifyBy V :=
-  verifyCached_fst V hV c hc now ttl b hb
+theorem verify_cached_is_direct {μ : Str → Option M} (V : Bundle.Oracle) (hV : PerKidFun μ V) (c : Store) (hc : Sound μ V c)
+    (now ttl : Int) (b : Bundle) (hb : Clean b) (sb : SyncedB μ b) : (verifyCached .byKid V c now ttl b).1 = b.verifyBy V :=
+  verifyCached_fst V hV c hc now ttl b hb sb
+
+/-- **the key resolver satisfies the hypothesis**, for every decoder `μ`: its answer depends on the
+candidates only through, for each ticket, the ordered texts of the candidates carrying it -/
+theorem resolver_satisfies_hypothesis (R : Bundle.Resolver) (μ : Str → Option M) : PerKidFun μ R.oracle :=
+  resolver_perKidFun R μ
+
+/-- **the stable sort by key-id keeps, for every ticket, the candidates in the order presented**,
+and is a permutation -/
+theorem stable_sort_keeps_candidate_order (k : Bytes) (l : List Tok) :
+    forKid k (sortToks .byKid l) = forKid k l ∧ (sortToks .byKid l).Perm l :=
+  ⟨sortToks_forKid k l, sortToks_perm _ l⟩
+
+/-- so handing the sorted candidates to the verifier changes nothing -/
+theorem sorting_is_invisible {μ : Str → Option M} (V : Bundle.Oracle) (hV : PerKidFun μ V) (p : Tok) (ds : List Tok)
+    (hp : Synced μ p) (hd : ∀ d ∈ ds, Synced μ d) : V p (sortToks .byKid ds) = V p ds :=
+  sorted_same V hV p ds hp hd
 
 /-- **key_injective.**  Token text cannot contain the separator (text of a parsed token is a part
 between commas; text of a minted token is a label, `_`, base64 — `Base64.encode_alphabet`), and over
-comma-free strings the key determines the permission string and the multiset of discharge strings -/
-theorem key_injective (p p' : Str) (ds ds' : List Str) (hp : NoComma p) (hp' : NoComma p')
-    (hd : ∀ d ∈ ds, NoComma d) (hd' : ∀ d ∈ ds', NoComma d) (h : key p ds = key p' ds') :
-    p = p' ∧ ds.Perm ds' :=
-  Lemmas.BundleL.key_injective p p' ds ds' hp hp' hd hd' h
+comma-free text equal keys mean: the same permission text, the same sequence of sorted candidate
+texts, hence (text determines the key-id) for every ticket the same ordered candidate texts -/
+theorem key_injective {μ : Str → Option M} (p p' : Tok) (ds ds' : List Tok) (hp : NoComma p.str) (hp' : NoComma p'.str)
+    (hd : ∀ d ∈ ds, NoComma d.str) (hd' : ∀ d ∈ ds', NoComma d.str)
+    (sd : ∀ d ∈ ds, Synced μ d) (sd' : ∀ d ∈ ds', Synced μ d) (h : keyOf .byKid p ds = keyOf .byKid p' ds') :
+    p.str = p'.str ∧ (sortToks .byKid ds).map Tok.str = (sortToks .byKid ds').map Tok.str ∧
+    ∀ k, (forKid k ds).map Tok.str = (forKid k ds').map Tok.str := by
+  obtain ⟨e1, e2⟩ := Lemmas.BundleL.key_injective .byKid p p' ds ds' hp hp' hd hd' h
+  exact ⟨e1, e2, perKid_of_sorted ds ds' sd sd' e2⟩
 
-/-- token text never contains the separator: parsed tokens, minted tokens, and every bundle of a history -/
+/-- token text never contains the separator: parsed tokens, minted tokens -/
 theorem token_text_has_no_separator :
-    (∀ hdr, ∀ t ∈ parseToks hdr, NoComma t.str) ∧ (∀ bytes, NoComma (macString bytes)) ∧
-    (∀ (P : Params), StrFun P.V → ∀ now s op, Inv P.V s → AllClean (step P now s op).1) :=
-  ⟨parseToks_clean, macString_clean, fun P hV now s op h => (step_cached_vs_direct P hV now s h op).2.2.1⟩
+    (∀ hdr, ∀ t ∈ parseToks hdr, NoComma t.str) ∧ (∀ bytes, NoComma (macString bytes)) :=
+  ⟨parseToks_clean, macString_clean⟩
+
+/-- token text determines the macaroon (hence the key-id): by construction for parsed tokens; for a
+minted token the text decodes to the printed bytes, so what is left is the codec round trip -/
+theorem token_text_determines_macaroon :
+    (∀ hdr, ∀ t ∈ parseToks hdr, Synced macOf t) ∧ (∀ bytes, macOf (macString bytes) = Concrete.decode bytes) ∧
+    (∀ {μ : Str → Option M} {t : Tok}, Synced μ t → kidOf t = kidOfText μ t.str) :=
+  ⟨parseToks_synced, macOf_macString, fun h => kidOf_synced h⟩
+
+/-- `MintSynced macOf` is the round trip of the token codec on what `Attenuate`/`Discharge` print -/
+theorem mint_synced_is_codec_roundtrip
+    (h : ∀ m m' bytes, Concrete.encode m = (m', some bytes) → Concrete.decode bytes = some m') : MintSynced macOf :=
+  mintSynced_of_roundtrip h
 
 /-- **hit_conditions.**  A cached acceptance is used only if an entry with exactly that key is
-present and `now < expiry`; and (key injectivity) only for the identical permission string presented
-with the identical multiset of candidate discharge strings as the query that stored it -/
-theorem hit_conditions (c : Store) (now : Int) (p : Tok) (ds : List Tok) (cs : CS) (h : c.hit now (keyOf p ds) = some cs) :
-    ∃ e ∈ c, e.key = keyOf p ds ∧ e.cs = cs ∧ now < e.expiry ∧
-      ∀ p₀ ds₀, e.key = keyOf p₀ ds₀ → NoComma p.str → NoComma p₀.str → (∀ d ∈ ds, NoComma d.str) →
-        (∀ d ∈ ds₀, NoComma d.str) → p.str = p₀.str ∧ (ds.map Tok.str).Perm (ds₀.map Tok.str) := by
+present and `now < expiry`; and (key injectivity) only for the identical permission text presented
+with, for every ticket, the identical ordered candidate texts as the query that stored it -/
+theorem hit_conditions {μ : Str → Option M} (c : Store) (now : Int) (p : Tok) (ds : List Tok) (cs : CS)
+    (h : c.hit now (keyOf .byKid p ds) = some cs) :
+    ∃ e ∈ c, e.key = keyOf .byKid p ds ∧ e.cs = cs ∧ now < e.expiry ∧
+      ∀ p₀ ds₀, e.key = keyOf .byKid p₀ ds₀ → NoComma p.str → NoComma p₀.str → (∀ d ∈ ds, NoComma d.str) →
+        (∀ d ∈ ds₀, NoComma d.str) → (∀ d ∈ ds, Synced μ d) → (∀ d ∈ ds₀, Synced μ d) →
+        p.str = p₀.str ∧ ∀ k, (forKid k ds).map Tok.str = (forKid k ds₀).map Tok.str := by
   obtain ⟨e, he, hk, hcs, hexp⟩ := hit_some h
   refine ⟨e, he, hk, hcs, hexp, ?_⟩
-  intro p₀ ds₀ hk0 hp hp0 hd hd0
-  exact Lemmas.BundleL.key_injective p.str p₀.str _ _ hp hp0
-    (fun s hs => by obtain ⟨d, hd', rfl⟩ := List.mem_map.mp hs; exact hd d hd')
-    (fun s hs => by obtain ⟨d, hd', rfl⟩ := List.mem_map.mp hs; exact hd0 d hd')
-    (hk.symm.trans hk0)
+  intro p₀ ds₀ hk0 hp hp0 hd hd0 sd sd0
+  obtain ⟨e1, _, e3⟩ := key_injective (μ := μ) p p₀ ds ds₀ hp hp0 hd hd0 sd sd0 (hk.symm.trans hk0)
+  exact ⟨e1, e3⟩
 
 /-- an expired entry is never used -/
 theorem expired_entry_not_used (c : Store) (now : Int) (k : Str) (h : ∀ e ∈ c, e.key = k → e.expiry ≤ now) :
@@ -93,19 +142,19 @@ theorem expired_entry_not_used (c : Store) (now : Int) (k : Str) (h : ∀ e ∈ 
 /-- **failures_not_cached.**  Whatever a verification adds to the store is an acceptance by the
 underlying verifier of a query of this very call, stored under that query's key, expiring `ttl`
 later; a rejection stores nothing -/
-theorem failures_not_cached (V : Bundle.Oracle) (c : Store) (now ttl : Int) (b : Bundle) (e : Entry)
-    (h : e ∈ newEntries V c now ttl (queries b)) :
-    ∃ q ∈ queries b, V q.1 (sortToks q.2) = some e.cs ∧ e.key = keyOf q.1 q.2 ∧ e.expiry = now + ttl := by
+theorem failures_not_cached (ko : KeyOrder) (V : Bundle.Oracle) (c : Store) (now ttl : Int) (b : Bundle) (e : Entry)
+    (h : e ∈ newEntries ko V c now ttl (queries b)) :
+    ∃ q ∈ queries b, V q.1 (sortToks ko q.2) = some e.cs ∧ e.key = keyOf ko q.1 q.2 ∧ e.expiry = now + ttl := by
   obtain ⟨q, hq, _, hv, hk, hexp⟩ := mem_newEntries h
   exact ⟨q, hq, hv, hk, hexp⟩
 
 /-- failures never turn into acceptances: a token the cached verification marks verified is one the
 underlying verifier accepts, with the same caveats -/
-theorem cached_acceptance_is_real (V : Bundle.Oracle) (hV : StrFun V) (c : Store) (hc : Sound V c) (now ttl : Int)
-    (b : Bundle) (hb : Clean b) (hinv : VerifiedArePerm b) (cs : CS)
-    (h : cs ∈ (verifyCached V c now ttl b).1.verifiedSets) :
+theorem cached_acceptance_is_real {μ : Str → Option M} (V : Bundle.Oracle) (hV : PerKidFun μ V) (c : Store) (hc : Sound μ V c)
+    (now ttl : Int) (b : Bundle) (hb : Clean b) (sb : SyncedB μ b) (hinv : VerifiedArePerm b) (cs : CS)
+    (h : cs ∈ (verifyCached .byKid V c now ttl b).1.verifiedSets) :
     ∃ t ∈ b.ts, isPermAt b.permLoc t = true ∧ V t (dischargesOf b.permLoc b.ts t) = some cs := by
-  rw [verifyCached_fst V hV c hc now ttl b hb] at h
+  rw [verifyCached_fst V hV c hc now ttl b hb sb] at h
   exact (verifiedSets_verifyBy b V hinv cs).mp h
 
 /-- **bundles_isolated.**  What one bundle does afterwards (verifying, attenuating, discharging,
@@ -139,38 +188,77 @@ theorem f7_initial_state (pl : Bytes) (h : Str) (s : Str) (m : M) (hp : parseTok
     hinit pl [h, h] = f7Init pl s m :=
   f7Init_is_parsed pl h s m hp hloc
 
+/-- **The text-sorted key, negative witness** (the code as found).  With the candidates sorted by
+text even a cold cache changes the answer: the inner verifier is handed `[d₂, d₁]` although the bundle
+presents `[d₁, d₂]`; whenever the verifier tells these apart — two acceptable discharges for one
+ticket imposing different caveats: the first one wins — cached and direct verification differ.  With
+the stable sort by key-id two candidates for one ticket stay in the order presented. -/
+theorem text_sorted_key_not_transparent (V : Bundle.Oracle) (now : Int) (p d₁ d₂ : Tok)
+    (hlt : strLt d₂.str d₁.str = true) (hV : V p [d₂, d₁] ≠ V p [d₁, d₂]) :
+    cachedOracle .byText V [] now p [d₁, d₂] ≠ V p [d₁, d₂] ∧
+    (kidOf d₁ = kidOf d₂ → cachedOracle .byKid V [] now p [d₁, d₂] = V p [d₁, d₂]) := by
+  refine ⟨Lemmas.BundleL.text_sorted_key_not_transparent V now p d₁ d₂ hlt hV, ?_⟩
+  intro hk
+  simp only [cachedOracle, Store.hit, Store.get, List.find?_nil, kid_sorted_keeps_candidates d₁ d₂ hk]
+
 /-! ### non-vacuity -/
 
-/-- a verifier that is a function of the texts: accept exactly the permission tokens whose text
-starts with `f`, returning no caveats -/
+/-- a verifier that depends on the permission text only -/
 def toyV : Bundle.Oracle := fun p _ => if p.str.head? = some 'f' then some [] else none
 
-example : StrFun toyV := by
-  intro p p' ds ds' h _
+example (μ : Str → Option M) : PerKidFun μ toyV := by
+  intro p p' ds ds' _ _ _ _ h _
   simp [toyV, h]
 
+/-- the verifier hypothesis holds for every key resolver -/
+example (R : Bundle.Resolver) : PerKidFun macOf R.oracle := resolver_perKidFun R macOf
+
 /-- the invariant holds initially, for any headers -/
-example (V : Bundle.Oracle) (pl : Bytes) (hdrs : List Str) : Inv V (init pl hdrs) := inv_init V pl hdrs
+example (V : Bundle.Oracle) (pl : Bytes) (hdrs : List Str) : Inv macOf V (init pl hdrs) := inv_init V pl hdrs
+
+/-- an order-sensitive verifier (accepts iff the FIRST candidate's text is `b`) and two candidates
+`b`, `a` (no key-id: both answer the same "ticket"): sorted by text the cache asks about `[a, b]` -/
+def firstIsB : Bundle.Oracle := fun _ ds => if (ds.head?.map Tok.str) = some ['b'] then some [] else none
+
+example : cachedOracle .byText firstIsB [] 0 (.nonMac ['p']) [.nonMac ['b'], .nonMac ['a']]
+    ≠ firstIsB (.nonMac ['p']) [.nonMac ['b'], .nonMac ['a']] :=
+  (text_sorted_key_not_transparent firstIsB 0 (.nonMac ['p']) (.nonMac ['b']) (.nonMac ['a']) (by decide)
+    (by simp [firstIsB, Tok.str])).1
+
+example : cachedOracle .byKid firstIsB [] 0 (.nonMac ['p']) [.nonMac ['b'], .nonMac ['a']]
+    = firstIsB (.nonMac ['p']) [.nonMac ['b'], .nonMac ['a']] :=
+  (text_sorted_key_not_transparent firstIsB 0 (.nonMac ['p']) (.nonMac ['b']) (.nonMac ['a']) (by decide)
+    (by simp [firstIsB, Tok.str])).2 rfl
 
 /-- an entry that is present and alive is hit -/
 example : (Store.hit [⟨['k'], [], 10⟩] 5 ['k']).isSome = true := by decide
 /-- … and not once it has expired (`now < expiry` is strict) -/
 example : (Store.hit [⟨['k'], [], 10⟩] 10 ['k']).isSome = false := by decide
 
-/-- the key of the model on small strings: discharges sorted, permission token last -/
-example : key ['p'] [['b'], ['a']] = ['a', ',', 'b', ',', 'p'] := by decide
+/-- the key of the model on small tokens: candidates (here without key-id, so in the order
+presented), permission token last -/
+example : keyOf .byKid (.nonMac ['p']) [.nonMac ['b'], .nonMac ['a']] = ['b', ',', 'a', ',', 'p'] := by decide
+/-- the old key sorted them by text -/
+example : keyOf .byText (.nonMac ['p']) [.nonMac ['b'], .nonMac ['a']] = ['a', ',', 'b', ',', 'p'] := by decide
 
 /-- without the comma-free hypothesis the key is NOT injective -/
-example : key ['p'] [['a', ',', 'b']] = key ['p'] [['a'], ['b']] := by decide
+example : keyOf .byKid (.nonMac ['p']) [.nonMac ['a', ',', 'b']] = keyOf .byKid (.nonMac ['p']) [.nonMac ['a'], .nonMac ['b']] := by
+  decide
 
 end Macaroon.Props.C14
 
 #print axioms Macaroon.Props.C14.cache_transparent
+#print axioms Macaroon.Props.C14.cache_transparent_key_resolver
 #print axioms Macaroon.Props.C14.cache_transparent_from
 #print axioms Macaroon.Props.C14.invariant_step
 #print axioms Macaroon.Props.C14.verify_cached_is_direct
+#print axioms Macaroon.Props.C14.resolver_satisfies_hypothesis
+#print axioms Macaroon.Props.C14.stable_sort_keeps_candidate_order
+#print axioms Macaroon.Props.C14.sorting_is_invisible
 #print axioms Macaroon.Props.C14.key_injective
 #print axioms Macaroon.Props.C14.token_text_has_no_separator
+#print axioms Macaroon.Props.C14.token_text_determines_macaroon
+#print axioms Macaroon.Props.C14.mint_synced_is_codec_roundtrip
 #print axioms Macaroon.Props.C14.hit_conditions
 #print axioms Macaroon.Props.C14.expired_entry_not_used
 #print axioms Macaroon.Props.C14.failures_not_cached
@@ -178,3 +266,4 @@ end Macaroon.Props.C14
 #print axioms Macaroon.Props.C14.bundles_isolated
 #print axioms Macaroon.Props.C14.f7_sharing_not_transparent
 #print axioms Macaroon.Props.C14.f7_initial_state
+#print axioms Macaroon.Props.C14.text_sorted_key_not_transparent
